@@ -949,7 +949,11 @@ fn canonicalise_undefined_symbols<'data, P: Platform>(
     undefined_symbols.sort_by_key(|u| usize::MAX - u.symbol_id.as_usize());
 
     for undefined in undefined_symbols {
-        let is_defined = undefined.ignore_if_loaded.is_some_and(|file_id| {
+        let is_defined = undefined.ignore_if_loaded.is_some_and(|_| {
+            // Look at where the definition is now rather than at the file we recorded. The first
+            // definition that we found might be in an archive entry that didn't get loaded, while
+            // a later definition, which alternative resolution has since selected, did.
+            let file_id = symbol_db.file_id_for_symbol(symbol_db.definition(undefined.symbol_id));
             !matches!(
                 groups[file_id.group()].files[file_id.file()],
                 ResolvedFile::NotLoaded(_)
@@ -958,7 +962,17 @@ fn canonicalise_undefined_symbols<'data, P: Platform>(
 
         if is_defined {
             // The archive entry that defined the symbol in question ended up being loaded, so the
-            // weak symbol is defined after all.
+            // weak symbol is defined after all. If the definition that got selected isn't the one
+            // we saw when we resolved the reference, then it hasn't yet had the visibility of this
+            // reference applied to it.
+            let visibility = symbol_db.input_symbol_visibility(undefined.symbol_id);
+            if visibility != Visibility::Default {
+                symbol_db::apply_visibility_to_definition(
+                    per_symbol_flags,
+                    symbol_db.definition(undefined.symbol_id),
+                    visibility,
+                );
+            }
             continue;
         }
 
